@@ -47,6 +47,8 @@ type Exec struct {
 	entryEnv   map[string]*SV // parameter bindings at entry
 	oblSeq     map[string]int
 	modLocs    map[string][]*Term
+	noTypeInv  bool
+	curPos     token.Pos
 }
 
 func (x *Exec) noteWrite(comp string, ref *Term) { x.writes[comp] = true }
@@ -60,6 +62,12 @@ func (x *Exec) oblige(st *State, kind, label string, tags []string, goal *Term, 
 		// still count trivially true obligations so names are stable
 		if !st.dead {
 			x.obls = append(x.obls, &Obligation{Name: x.unit.Key + "#" + kind + "[" + label + "]", Kind: kind, Tags: tags, Goal: goal, Status: "unsat", Solver: "syntactic", Unit: x.unit.Key, Pos: x.eng.posString(pos)})
+		}
+		return
+	}
+	if goal.Op == "=>" && len(goal.Args) == 2 && goal.Args[1].Op == "and" && len(goal.Args[1].Args) > 1 {
+		for _, g := range goal.Args[1].Args {
+			x.oblige(st, kind, label, tags, Imp(goal.Args[0], g), pos)
 		}
 		return
 	}
@@ -359,7 +367,15 @@ func (x *Exec) handlePanic(fr *Frame, st *State, i *ssa.Panic) {
 }
 
 func (x *Exec) implicitTags(fr *Frame, kind string) []string {
-	return x.eng.implicitTags(fr.fn)
+	tags := append([]string{}, x.eng.implicitTags(fr.fn)...)
+	if x.unit != nil && x.unit.Con != nil {
+		for _, t := range x.unit.Con.Tags {
+			if !hasTag(tags, t) {
+				tags = append(tags, t)
+			}
+		}
+	}
+	return tags
 }
 
 // ---------------------------------------------------------------------------
@@ -391,6 +407,7 @@ func (x *Exec) execInstr(fr *Frame, st *State, ins ssa.Instruction) {
 		x.initObject(fr, st, p, et)
 		fr.vals[i] = &SV{P: p}
 	case *ssa.Store:
+		x.curPos = i.Pos()
 		addr := x.val(fr, st, i.Addr)
 		if addr.P == nil {
 			if addr.T == nil && len(addr.Tuple) == 0 && addr.Fn == nil {
